@@ -49,6 +49,10 @@ INVALID = [-1, 256, 1000, -256, (0, 0, 6), (-1, 0, 0), (6, 6, 6), (1, 2), (1, 2,
            1.0, 0.0, 7.0, 200.0, 255.0, Fraction(3), Decimal(5), (1.0, 2, 3), (0, 0, 5.0)]
 
 
+class VfText(CHText):
+    """an application's own text type"""
+
+
 def all_single_values():
     vals = list(sgr.NAMES) + list(range(256))
     vals += [(r, g, b) for r in range(6) for g in range(6) for b in range(6)]
@@ -294,6 +298,49 @@ def run_shard(ctx):
                                   {"out": str(joined)[:120], "separator_is_chunk": joiner is sep}, case)
             except sgr.SgrError as err:
                 ctx.violation("malformed-or-bleeding-sequence", {"err": str(err), "out": str(joined)[:80]}, case)
+        if len(chunks) <= 5:
+            # one chunk formatted to a width (f"{chunk:>10}"): the padding is not part of the chunk - it shows
+            # no colour and no effect
+            chunk, text, want = chunks[i % len(chunks)]
+            pad = rng.choice([1, 2, 5])
+            fill, align = rng.choice(["", "", "*", "."]), rng.choice("<>^")
+            spec = "%s%s%d" % (fill, align, len(text) + pad)
+            left = {"<": 0, ">": pad, "^": pad // 2}[align]
+            fch = fill or " "
+            fmodel = [(fch, sgr.DEFAULT)] * left + [(c, want) for c in text] + [(fch, sgr.DEFAULT)] * (pad - left)
+            ctx.count("single_chunks_formatted_to_a_width")
+            try:
+                out = format(chunk, spec)
+                if sgr.cells(out) != fmodel:
+                    ctx.violation("padding-of-a-formatted-chunk-is-coloured-or-misplaced", {"out": out[:120], "spec": spec}, case)
+            except sgr.SgrError as err:
+                ctx.violation("malformed-or-bleeding-sequence", {"err": str(err), "spec": spec}, case)
+            # the chunks as a text of a class derived from CHText (an application's own text type), handed to
+            # plain texts and chunks as an operand
+            sub = VfText(*[c for c, _, _ in chunks])
+            smodel = [(ch, want) for _, text, want in chunks for ch in text]
+            how = i % 4
+            if how == 0:
+                mixed = CHText("p")
+                mixed += sub
+                xmodel = [("p", sgr.DEFAULT)] + smodel
+            elif how == 1:
+                mixed = CHText(sub, "x")
+                xmodel = smodel + [("x", sgr.DEFAULT)]
+            elif how == 2:
+                mixed = chunks[0][0] + sub
+                xmodel = [(c, chunks[0][2]) for c in chunks[0][1]] + smodel
+            else:
+                mixed = CHText("|").join([sub, "q", sub])
+                xmodel = smodel + [("|", sgr.DEFAULT), ("q", sgr.DEFAULT), ("|", sgr.DEFAULT)] + smodel
+            ctx.count("texts_of_a_derived_class_used_as_operands")
+            try:
+                if sgr.cells(str(mixed)) != xmodel or mixed.plain_text() != "".join(c for c, _ in xmodel) \
+                        or len(mixed) != len(xmodel):
+                    ctx.violation("operand-of-a-derived-text-class-shows-wrong-text-or-colours",
+                                  {"out": str(mixed)[:120], "how": how}, case)
+            except sgr.SgrError as err:
+                ctx.violation("malformed-or-bleeding-sequence", {"err": str(err), "how": how}, case)
         if i < 30 and len(ctx.samples) < 2:
             ctx.sample({"parts": parts, "rendered": str(res)})
 
